@@ -4,10 +4,15 @@
 use std::any::{Any, TypeId};
 use std::cell::RefCell;
 use std::collections::hash_map;
+#[cfg(not(folo_verif))]
 use std::sync::{LazyLock, RwLock};
+#[cfg(folo_verif)]
+use std::sync::LazyLock;
 
 use hash_hasher::HashedMap;
 
+#[cfg(folo_verif)]
+use crate::verif_hook::RwLock;
 use crate::{ERR_POISONED_LOCK, Family};
 
 /// This is the real type of variables wrapped in the [`linked::instances!` macro][1].
@@ -164,8 +169,6 @@ where
     }
 
     fn get_family_global(&self) -> Option<Family<T>> {
-        #[cfg(folo_verif)]
-        crate::verif_hook::point("si.global.read");
         GLOBAL_REGISTRY
             .read()
             .expect(ERR_POISONED_LOCK)
@@ -195,8 +198,6 @@ where
 
         // Fast path: the family is typically already registered by another thread.
         {
-            #[cfg(folo_verif)]
-            crate::verif_hook::point("si.global.check");
             let global_registry = GLOBAL_REGISTRY.read().expect(ERR_POISONED_LOCK);
 
             if global_registry.contains_key(&family_key) {
@@ -218,8 +219,6 @@ where
         // meantime, that registration wins and ours is thrown away, so only one "first"
         // instance is ever exposed to user code.
         let unused_family = {
-            #[cfg(folo_verif)]
-            crate::verif_hook::point("si.global.write");
             let mut global_registry = GLOBAL_REGISTRY.write().expect(ERR_POISONED_LOCK);
 
             match global_registry.entry(family_key) {
@@ -364,13 +363,20 @@ pub fn __private_clear_linked_variables_local() {
 pub fn __verif_global_registry_lock_state() -> u8 {
     use std::sync::TryLockError;
 
-    if matches!(GLOBAL_REGISTRY.try_read(), Err(TryLockError::WouldBlock)) {
+    if matches!(GLOBAL_REGISTRY.probe().try_read(), Err(TryLockError::WouldBlock)) {
         return 2;
     }
-    if matches!(GLOBAL_REGISTRY.try_write(), Err(TryLockError::WouldBlock)) {
+    if matches!(GLOBAL_REGISTRY.probe().try_write(), Err(TryLockError::WouldBlock)) {
         return 1;
     }
     0
+}
+
+/// Verification-only: the global registry is a scheduling point when locked.
+#[cfg(folo_verif)]
+impl crate::verif_hook::LockLabels for FamilyRegistry {
+    const READ: &'static str = "si.global.read";
+    const WRITE: &'static str = "si.global.write";
 }
 
 #[cfg(test)]
